@@ -44,7 +44,7 @@ package actionlint
 
 // LintFiles: the goroutine of a file checks it with the file's project and that project's caches
 //@ func (*Linter).LintFiles
-//@   props C10
+//@   props C10 C15
 //@   anchor
 //@   loop "range ws":
 //@     body_calls (*Projects).At iff project == nil
